@@ -593,21 +593,36 @@ func (hm *HandshakeManager) GetPreferredRanges() []netip.Prefix {
 	return hm.mainHostMap.GetPreferredRanges()
 }
 
+// ForEachVpnAddr calls f for every pending hostinfo while holding that handshake's lock, a pending hostinfo is
+// still being written to by the handshake it belongs to.
 func (hm *HandshakeManager) ForEachVpnAddr(f controlEach) {
 	hm.RLock()
-	defer hm.RUnlock()
-
+	pending := make([]*HandshakeHostInfo, 0, len(hm.vpnIps))
 	for _, v := range hm.vpnIps {
+		pending = append(pending, v)
+	}
+	hm.RUnlock()
+
+	for _, v := range pending {
+		v.Lock()
 		f(v.hostinfo)
+		v.Unlock()
 	}
 }
 
+// ForEachIndex calls f for every pending hostinfo, see ForEachVpnAddr for the locking
 func (hm *HandshakeManager) ForEachIndex(f controlEach) {
 	hm.RLock()
-	defer hm.RUnlock()
-
+	pending := make([]*HandshakeHostInfo, 0, len(hm.indexes))
 	for _, v := range hm.indexes {
+		pending = append(pending, v)
+	}
+	hm.RUnlock()
+
+	for _, v := range pending {
+		v.Lock()
 		f(v.hostinfo)
+		v.Unlock()
 	}
 }
 
